@@ -84,7 +84,7 @@ type c12World struct {
 	voided        map[string]bool // undelivered when the last handle closed: nobody can receive them any more
 }
 
-const c12Bound = 2 * time.Second
+const c12Bound = 4 * time.Second
 
 func freeAddr(packet bool) (string, error) {
 	// below the ephemeral range, so that no client socket of a concurrently running check can take it meanwhile
